@@ -187,6 +187,24 @@ var keySan = regexp.MustCompile(`[^A-Za-z0-9_.-]+`)
 
 // Failing counts the obligations that are neither held nor covered by a known
 // finding (no output, no files).
+// FailingObligations lists the obligations that make the run fail (unresolved, or violated
+// without a recorded known finding).
+func (r *Run) FailingObligations(verifDir string) []*O {
+	findings := loadFindings(filepath.Join(verifDir, "known_findings.json"))
+	var out []*O
+	for _, o := range r.Obl {
+		switch o.Verdict {
+		case Unresolved:
+			out = append(out, o)
+		case Violated:
+			if knownFor(findings, r.Prop, o) == "" {
+				out = append(out, o)
+			}
+		}
+	}
+	return out
+}
+
 func (r *Run) Failing(verifDir string) int {
 	findings := loadFindings(filepath.Join(verifDir, "known_findings.json"))
 	n := 0
